@@ -198,31 +198,39 @@ Proof. vm_compute. split; reflexivity. Qed.
 
 (* ------------------------------------------------------------------ end to end: the caching proxy ------------ *)
 (* Router/Cached.v composes the request path (rules, forward, EDNS and header fix-ups) with cacheCtl.Get/Store and
-   the prefetch.  In every state reachable by any history of requests, prefetches (any question, client, upstream),
-   clock ticks, collections and evictions: a response SERVED FROM CACHE to query [m] of [client] is — apart from TTL
-   ageing (SubtractTTL by some delta) and the per-request fix-ups (ID / RD / opcode copied from the query, own OPT iff
-   the query had one) — exactly what [forward] returned for the same lower-cased question when it was asked for a
-   client with the same cache key (the same group): same rcode and flags, same records in every section and order.
-   [ckey] is the cache key as a function of question and client, injective in the question (C07_cache_key_injective). *)
+   the prefetch.  In every state reachable by any history of (decoded, hence well-formed) requests, prefetches (any
+   question, client, upstream), clock ticks, collections and evictions: a response SERVED FROM CACHE to query [m] of
+   [client] is — apart from TTL ageing (SubtractTTL by some delta) and the per-request fix-ups (ID / RD / opcode copied
+   from the query, own OPT iff the query had one) — exactly what [forward] returned for the same lower-cased question
+   when it was asked for a client with the same cache key, i.e. (cache_key_injective) the same group label: same rcode
+   and flags, same records in every section and order; and it costs no upstream query.  The cache key is the real
+   one, cacheKey(question, ipMark(client)) read as a number ([real_ckey]). *)
 From Mos Require Import Router.Rules Router.Edns Router.Router Cache.CachePolicy Router.Cached Router.CachedProofs.
-Theorem C07_hit_is_relayed_answer : forall matches rules ecs up ckey maxttl,
+Theorem C07_hit_is_relayed_answer : forall matches rules ecs up (mark : addr -> list N) maxttl,
   (forall u w r, up u w = UReply r -> count_opt (m_ar r) <= 1) ->
-  (forall q1 c1 q2 c2, ckey q1 c1 = ckey q2 c2 -> q1 = q2) ->
+  (forall c, bytes (mark c)) ->
   forall (clk : N) (evs : list cev) (t ts eps : Z) (m : msg) (client : addr),
-  let st := fst (crun matches rules ecs up ckey maxttl (init_state clk) evs) in
-  let o := snd (handle_c matches rules ecs up ckey maxttl st t ts eps m client) in
+  Forall cev_wf evs -> wf_msg m ->
+  let st := fst (crun matches rules ecs up (real_ckey mark) maxttl (init_state clk) evs) in
+  let o := snd (handle_c matches rules ecs up (real_ckey mark) maxttl st t ts eps m client) in
   unsupported m = false -> co_cached o = true ->
   co_eff o = [] /\
   exists q qs u c r delta,
-    m_qs m = q :: qs /\ ckey (lower_q q) c = ckey (lower_q q) client /\
+    m_qs m = q :: qs /\ mark c = mark client /\
     fst (forward_q ecs up u (lower_q q) c) = Some r /\
     co_resp o = fix_header m (let r' := subtract_ttl delta r in
                               if has_opt m then add_or_replace_opt r' else remove_opt r').
 Proof.
-  intros matches rules ecs up ckey maxttl H1 Hinj clk evs t ts eps m client st o Hu Hc.
-  assert (Hi : cinv ecs up ckey st) by (apply (crun_inv matches rules ecs up ckey maxttl H1 Hinj); apply cinv_init).
+  intros matches rules ecs up mark maxttl H1 Hm clk evs t ts eps m client Hev Hwm st o Hu Hc.
+  pose proof (real_ckey_inj mark Hm) as Hinj.
+  assert (Hi : cinv ecs up (real_ckey mark) st)
+    by (apply (crun_inv matches rules ecs up (real_ckey mark) maxttl H1 Hinj _ Hev); apply cinv_init).
   split.
-  - apply (handle_c_effects matches rules ecs up ckey maxttl H1 Hinj _ _ _ _ _ _ Hi). exact Hc.
-  - apply (handle_c_hit_source matches rules ecs up ckey maxttl Hinj _ _ _ _ _ _ Hi Hu Hc).
+  - apply (handle_c_effects matches rules ecs up (real_ckey mark) maxttl H1 Hinj _ _ _ _ _ _ Hi Hwm). exact Hc.
+  - destruct (handle_c_hit_source matches rules ecs up (real_ckey mark) maxttl Hinj _ _ _ _ _ _ Hi Hwm Hu Hc)
+      as (q & qs & u & c & r & delta & Hq & Hk & Hf & Hr).
+    exists q, qs, u, c, r, delta. split; [exact Hq|]. split; [|split; [exact Hf|exact Hr]].
+    apply (real_ckey_mark mark Hm (lower_q q) c client); [|exact Hk].
+    destruct Hwm as (_ & Fq & _). rewrite Hq in Fq. apply Router.RouterProofs.lower_q_wf. now inversion Fq.
 Qed.
 Print Assumptions C07_hit_is_relayed_answer.
